@@ -7,7 +7,7 @@ import re
 
 VERIF = os.path.dirname(os.path.dirname(os.path.abspath(__file__)))
 DPROP = dict(D1="C11", D14="C11", D7="C11", D11="C09", D13="C09", D2="C02", D3="C04", D5="C05", D6="C08", D7b="C08", D19="C08",
-             D10="C08", D20="C08", D18="C03", D22="C17", D16="C20", D17="C20")
+             D10="C08", D20="C08", D18="C03", D22="C17", D16="C20", D17="C20", D24="C08")
 known = {f["id"]: f for f in json.load(open(os.path.join(VERIF, "known_findings.json")))["findings"] if "id" in f}
 for d in sorted(glob.glob(os.path.join(VERIF, "seeded", "*"))):
     name = os.path.basename(d)
